@@ -345,6 +345,7 @@ func c02Worker(c *mc.Ctx) {
 	rangeAlgebraRun(c, ws, "C02", specInDomainC02)
 	wideLiteralRun(c, ws, "C02", specInDomainC02)
 	macroRun(c, ws, "C02", specInDomainC02, prm.L)
+	nullableLoopRun(c, ws, "C02", specInDomainC02, prm.L)
 	for _, fam := range prm.sets {
 		n := fam.rs.Size()
 		if fam.limit > 0 && fam.limit < n {
@@ -398,4 +399,78 @@ func init() {
 		Worker: c02Worker,
 		Replay: lexReplay("C02", specInDomainC02),
 	})
+}
+
+// nullableLoopSpecs: a repetition (* or +) of a sequence of two (thorough:
+// also three) terms that can each match the empty string - x?, x*, a class
+// under ? - between an optional prefix and an optional suffix, alone or before
+// a second greedy rule. In the NFA these are cycles made of epsilon edges only,
+// entered at different points depending on what was read before: the shapes of
+// `[a-z] ([a-z]* '_'?)*` and `'<' ('a'? 'b'?)* '>'`.
+func nullableLoopSpecs(quick bool) []*lexref.Spec {
+	ab := &lexref.Class{Items: []lexref.ClassItem{lexref.Range('a', 'b')}}
+	atoms := []func() *lexref.Rx{
+		func() *lexref.Rx { return lexref.Rep(lexref.Lit("a"), lexref.COpt) },
+		func() *lexref.Rx { return lexref.Rep(lexref.Lit("b"), lexref.COpt) },
+		func() *lexref.Rx { return lexref.Rep(lexref.Lit("a"), lexref.CStar) },
+		func() *lexref.Rx { return lexref.Rep(lexref.Lit("b"), lexref.CStar) },
+		func() *lexref.Rx { return lexref.Rep(lexref.Cls(ab), lexref.COpt) },
+		func() *lexref.Rx { return lexref.Rep(lexref.Lit("ab"), lexref.COpt) },
+	}
+	var bodies []*lexref.Rx
+	for i := range atoms {
+		for j := range atoms {
+			bodies = append(bodies, lexref.Cat(atoms[i](), atoms[j]()))
+			if !quick {
+				for k := range atoms {
+					bodies = append(bodies, lexref.Cat(atoms[i](), atoms[j](), atoms[k]()))
+				}
+			}
+		}
+	}
+	abc := &lexref.Class{Items: []lexref.ClassItem{lexref.Range('a', 'c')}}
+	ad := &lexref.Class{Items: []lexref.ClassItem{lexref.Range('a', 'd')}}
+	prefixes := []func() *lexref.Rx{nil, func() *lexref.Rx { return lexref.Lit("c") }, func() *lexref.Rx { return lexref.Cls(abc) }}
+	suffixes := []func() *lexref.Rx{nil, func() *lexref.Rx { return lexref.Lit("d") }, func() *lexref.Rx { return lexref.Lit("a") }}
+	var out []*lexref.Spec
+	for _, body := range bodies {
+		for _, card := range []int{lexref.CStar, lexref.CPlus} {
+			for _, pre := range prefixes {
+				for _, suf := range suffixes {
+					var parts []*lexref.Rx
+					if pre != nil {
+						parts = append(parts, pre())
+					}
+					parts = append(parts, lexref.Rep(body, card))
+					if suf != nil {
+						parts = append(parts, suf())
+					}
+					rx := parts[0]
+					if len(parts) > 1 {
+						rx = lexref.Cat(parts...)
+					}
+					for second := 0; second < 2; second++ {
+						s := &lexref.Spec{Modes: []lexref.Mode{{}}}
+						s.Modes[0].Rules = append(s.Modes[0].Rules, lexref.Rule{K: lexref.RToken, Name: "T1", Rx: rx})
+						if second == 1 {
+							s.Modes[0].Rules = append(s.Modes[0].Rules, lexref.Rule{K: lexref.RToken, Name: "T2", Rx: lexref.Rep(lexref.Cls(ad), lexref.CPlus)})
+						}
+						out = append(out, s)
+					}
+				}
+			}
+		}
+	}
+	return out
+}
+
+func nullableLoopRun(c *mc.Ctx, ws *pipe.Workspace, property string, inDomain func(c *lexref.Compiled) (bool, string), L int) {
+	for i, s := range nullableLoopSpecs(c.Quick()) {
+		if !c.Mine(int64(i)) {
+			continue
+		}
+		for _, v := range c02One(ws, "nullable-loops", int64(i), s, L, &c.Stats, property, inDomain) {
+			c.Stats.Violate(v)
+		}
+	}
 }
